@@ -34,13 +34,14 @@ class GridFromOrigin:
         for D in (2, 3):
             for det in (1, -1):
                 for route in ("origin", "center", "origin_setter", "origin_copy"):
-                    yield {"D": D, "det": det, "route": route}
+                    for ac in (True, False):
+                        yield {"D": D, "det": det, "route": route, "align_corners": ac}
 
     def run(self, case, K):
         from deepali.core.grid import Grid
 
         D = case["D"]
-        N = [K.int(f"N{i}", 1, None, draw=(1, 9)) for i in range(D)]
+        N = [K.int(f"N{i}", 2, None, draw=(2, 9)) for i in range(D)]
         s = [K.real(f"s{i}", draw=(Fraction(1, 4), 4)) for i in range(D)]
         for v in s:
             K.assume(E.lt(E.ZERO, v))
@@ -52,16 +53,16 @@ class GridFromOrigin:
         tN, ts, tR = K.tensor(N), K.tensor(s), K.tensor(R)
         route = case["route"]
         if route == "origin":
-            g = K.call(Grid, size=tN, origin=K.tensor(o), spacing=ts, direction=tR)
+            g = K.call(Grid, size=tN, origin=K.tensor(o), spacing=ts, direction=tR, align_corners=case["align_corners"])
         elif route == "center":
-            g = K.call(Grid, size=tN, center=K.tensor(c_spec), spacing=ts, direction=tR)
+            g = K.call(Grid, size=tN, center=K.tensor(c_spec), spacing=ts, direction=tR, align_corners=case["align_corners"])
         elif route == "origin_setter":
-            g = K.call(Grid, size=tN, spacing=ts, direction=tR)
+            g = K.call(Grid, size=tN, spacing=ts, direction=tR, align_corners=case["align_corners"])
             if K.ensure_returns(g):
                 r = K.call(g.origin_, K.tensor(o), modifies=[g._center])
                 K.ensure("returns-self", E.bconst(r is g), text="origin_ is the in-place variant", kind="helper")
         else:
-            g0 = K.call(Grid, size=tN, spacing=ts, direction=tR)
+            g0 = K.call(Grid, size=tN, spacing=ts, direction=tR, align_corners=case["align_corners"])
             if not K.ensure_returns(g0):
                 return
             old_center = K.val(g0.center())
@@ -81,6 +82,16 @@ class GridFromOrigin:
             back = K.call(g.world_to_index, K.tensor(want), decimals=None)
             if K.ensure_returns(back):
                 K.ensure_eq("world->index", back, ei, text="C02: maps physical points back to the same continuous index")
+            # the geometry must not depend on which read-only calls were made before (same answers after other uses)
+            from deepali.core.grid import Axes
+
+            for ax in (Axes.CUBE_CORNERS, Axes.CUBE, Axes.GRID):
+                K.call(g.transform_vectors, K.tensor(ei), Axes.WORLD, ax)
+                K.call(g.transform, Axes.GRID, ax)
+            K.ensure_eq("origin-after-use", g.origin(), o, text=Q2 + " [unchanged by read-only use of the grid]")
+            p2 = K.call(g.index_to_world, K.tensor(ei), decimals=None)
+            if K.ensure_returns(p2):
+                K.ensure_eq("index->world-after-use", p2, want, text=Q2 + " [unchanged by read-only use of the grid]")
             # transposed direction cosines would be invisible to C01: must be refuted here
             if not (D == 2 and case["det"] < 0):  # a 2-D reflection matrix is symmetric
                 bad = np.array([itk_point(o, R.T, s, list(ei[m])) for m in range(2)], dtype=object)
@@ -116,7 +127,8 @@ class GridFromHeader:
     def cases(self, tier):
         for D in (2, 3):
             for fn in ("from_sitk", "from_reader"):
-                yield {"D": D, "fn": fn}
+                for ac in (True, False):
+                    yield {"D": D, "fn": fn, "align_corners": ac}
 
     def run(self, case, K):
         from deepali.core.grid import Grid
@@ -129,7 +141,7 @@ class GridFromHeader:
         o = [K.real(f"o{i}", draw=(-20, 20)) for i in range(D)]
         R = direction(K, "R", D, 1)
         hdr = _Header(K.tensor(N), K.tensor(o), K.tensor(s), K.tensor(R.reshape(-1)))
-        g = K.call(getattr(Grid, case["fn"]), hdr)
+        g = K.call(getattr(Grid, case["fn"]), hdr, align_corners=case["align_corners"])
         if not K.ensure_returns(g):
             return
         K.ensure_eq("size", g.size_tensor(), N, text=Q2H)
@@ -152,7 +164,8 @@ class SitkAgreement:
     def cases(self, tier):
         for D in (2, 3):
             for kind in ("oblique", "flip", "permute"):
-                yield {"D": D, "kind": kind}
+                for ac in (True, False):
+                    yield {"D": D, "kind": kind, "align_corners": ac}
 
     def run(self, case, K):
         import SimpleITK as sitk
@@ -184,7 +197,7 @@ class SitkAgreement:
         img.SetOrigin(o)
         img.SetSpacing(s)
         img.SetDirection(Rn.reshape(-1).tolist())
-        g = K.call(Grid.from_sitk, img)
+        g = K.call(Grid.from_sitk, img, align_corners=case["align_corners"])
         if not K.ensure_returns(g):
             return
         idx = [[K.rng.uniform(-3, 12) for _ in range(D)] for _ in range(16)]
